@@ -52,7 +52,7 @@ pub struct PropCfg {
 
 pub fn prop_cfg(prop: &str, thorough: bool) -> PropCfg {
     let k = if thorough { 6 } else { 1 };
-    let all: &'static [&'static str] = &["core", "repo", "unicode", "kinds", "stack", "slice", "arity", "getter", "rec", "random"];
+    let all: &'static [&'static str] = &["core", "repo", "unicode", "kinds", "stack", "slice", "arity", "getter", "rec", "rand", "random"];
     let base = PropCfg { families: all, groups: grp::STR, sentences: 24 * k, mutations: 48 * k, small_cap: 400 * k, padded: false, cuts: 0, variants: false, gaps: 0 };
     match prop {
         "C01" => PropCfg { groups: grp::STR, gaps: 1, ..base },
